@@ -1,2 +1,36 @@
-(* props/C05.v — placeholder until the theorems of this property are added. *)
-From Prophy Require Import Bytes Schema Layout Wire PcModel.
+(* props/C05.v — C++ full codec: get_byte_size() equals the length of the encoding (model level).
+   [cpp_size] (model/CppFull.v) evaluates the expression generate_struct_get_byte_size assembles
+   from prophyc's member byte sizes, kinds and signed paddings — constant bytes, x.size() * N,
+   std::accumulate over dynamic elements, nested get_byte_size(), nearest<N>( ... ) at every
+   negative padding — on an object. Proved: for every legal type and every well-typed object it
+   is the length of the canonical encoding in either byte order, and for fixed types the constant
+   prophyc publishes as encoded_byte_size. That the pointer encoder writes exactly these bytes is
+   C03's matter (no theorem yet); checks/C05.py measures it on the compiled code with guard bytes. *)
+From Coq Require Import ZArith List Bool Lia.
+From Prophy Require Import Bytes Schema Layout Wire Src PcModel CppFull Arith Views SpecLen PcFacts CppSizeFacts.
+Import ListNotations.
+Local Open Scope Z_scope.
+
+Theorem C05_get_byte_size_is_wire_length :
+  forall e t v, legal t = true -> wt t v = true -> cpp_size t v = len (wire e t v).
+Proof.
+  intros e t v Hl Hw. rewrite (cpp_size_eq t v Hl Hw). unfold wire.
+  destruct (layout_lengths t v Hl Hw) as [H1 _]. rewrite len_render by exact H1. reflexivity.
+Qed.
+Print Assumptions C05_get_byte_size_is_wire_length.
+
+Theorem C05_fixed_is_encoded_byte_size :
+  forall t v, legal t = true -> wt t v = true -> is_fixed t = true -> cpp_size t v = pc_size t.
+Proof.
+  intros t v Hl Hw Hf. rewrite (cpp_size_eq t v Hl Hw).
+  destruct (layout_lengths t v Hl Hw) as [_ [_ H3]]. rewrite (H3 Hf).
+  destruct (pc_layout_eq t Hl) as [_ Hs]. symmetry. exact Hs.
+Qed.
+Print Assumptions C05_fixed_is_encoded_byte_size.
+
+(* non-vacuity: struct X { u32 x<>; u8 y; } — the shape of the repaired defect d8d2f12 — with 3 elements *)
+Example C05_example :
+  let t := TStruct [(FPlain, TScalar U32); (FBound 0%nat, TScalar U32); (FPlain, TScalar U8)] in
+  let v := VStruct [VInt 3; VList [VInt 1; VInt 2; VInt 3]; VInt 7] in
+  legal t = true /\ wt t v = true /\ cpp_size t v = 20 /\ len (wire LE t v) = 20.
+Proof. vm_compute. repeat split; reflexivity. Qed.
